@@ -3,13 +3,19 @@ use crate::utils::{change_lifetime_const, SharedValue, ValueRef, ValueRefMut};
 use crate::{CacheError, DefaultUpdateValidator, Item as CrateItem, UpdateValidator};
 use parking_lot::RwLock;
 use std::collections::hash_map::RandomState;
+#[cfg(not(all(transparencies_stretto_verif, kani)))]
 use std::collections::HashMap;
+#[cfg(all(transparencies_stretto_verif, kani))]
+use crate::verif_kmap::HashMap;
 use std::fmt::{Debug, Formatter};
 use std::hash::BuildHasher;
 use std::mem;
 use std::sync::Arc;
 
+#[cfg(not(all(transparencies_stretto_verif, kani)))]
 const NUM_OF_SHARDS: usize = 256;
+#[cfg(all(transparencies_stretto_verif, kani))]
+const NUM_OF_SHARDS: usize = 1;
 
 pub(crate) struct StoreItem<V> {
     pub(crate) key: u64,
@@ -527,3 +533,7 @@ mod test {
         assert_eq!(s.get(&1, 0).unwrap().read(), 1);
     }
 }
+
+#[cfg(all(transparencies_stretto_verif, any(kani, test)))]
+#[path = "/verif/harness/h_store.rs"]
+mod verif_harness;
